@@ -193,6 +193,8 @@ def judge(table, toks, parser, acc: Acc) -> None:
     if nops >= 2:
         acc.nontrivial(table, toks)
     kinds = {("pre" if t in table[0] else "post" if t in table[2] else "in") for t in toks if not t.startswith("x")}
+    if any(t in table[0] and (t in table[1] or t in table[2]) for t in toks):
+        acc.count("streams_with_a_name_in_two_roles")
     acc.count("streams_with_" + "+".join(sorted(kinds)) if kinds else "streams_operand_only")
 
 
@@ -225,6 +227,16 @@ def gen_table(rnd: random.Random, small: bool):
             other = rnd.choice(sorted(inf))
             lvl, right = inf[other]
         inf[f"i{j}"] = (lvl, right)
+    if pre and rnd.random() < 0.35:
+        # one rule name in two roles, told apart by position only (unary and binary minus, prefix and postfix ++):
+        # a prefix operator shares its name with an infix or a postfix operator (never infix with postfix: ambiguous)
+        shared = rnd.choice(sorted(pre))
+        if post and rnd.random() < 0.4:
+            old = rnd.choice(sorted(post))
+            post = {(shared if k == old else k): v for k, v in post.items()}
+        else:
+            old = rnd.choice(sorted(inf))
+            inf = {(shared if k == old else k): v for k, v in inf.items()}
     return pre, inf, post
 
 
@@ -346,6 +358,7 @@ def main(tier: str, seed: int) -> int:
         ),
         assumptions=[
             "precedence levels are distinct across operator kinds; equal levels occur only among infix operators with one associativity",
+            "a rule name may be both a prefix operator and an infix or postfix operator (position decides); never both infix and postfix",
             "the binding-power reference follows pest's pratt_parser.rs; it is cross-checked on every case by the local-constraint validator",
         ],
         evaluations_key="streams",
